@@ -146,7 +146,7 @@ def _grow(chk, persistent):
                         name = None
                         kw = {k.arg: k.value for k in n.keywords}
                         name = kw.get("name") or (n.args[1] if len(n.args) > 1 else None)
-                        if const_str(name) is not None:
+                        if const_str(name) is not None or _finite_key(ff, name):
                             continue
                     if n.func.attr == "update" and n.args and isinstance(n.args[0], ast.Dict) and all(const_str(k) is not None or is_self_attr(k) for k in n.args[0].keys):
                         continue  # fixed key set: overwrite of the same slots
@@ -155,7 +155,7 @@ def _grow(chk, persistent):
                     sites.append((n.target.attr, n))
                 elif isinstance(n, ast.Assign):
                     for t in n.targets:
-                        if isinstance(t, ast.Subscript) and is_self_attr(t.value) and const_str(t.slice) is None:
+                        if isinstance(t, ast.Subscript) and is_self_attr(t.value) and const_str(t.slice) is None and not _finite_key(ff, t.slice):
                             # keyed rewrite while iterating over the existing keys is not growth
                             key_src = {p.atom.name for p in ff.paths(t.slice, spine_only=True)}
                             it_over_self = any(
@@ -180,6 +180,15 @@ def _grow(chk, persistent):
 
 
 # ----------------------------------------------------------------------------
+def _finite_key(ff: FuncFacts, e) -> bool:
+    """the key expression only ever evaluates to literal constants (a local holding a literal, a loop variable over a
+    literal display): writing under it overwrites a fixed set of slots"""
+    if e is None:
+        return False
+    ps = ff.paths(e, spine_only=True)
+    return bool(ps) and all(p.atom.kind == "const" and p.atom.name not in ("[]", "()", "{}", "fstring") and all(o.kind in ("elt", "iter", "unpack") for o in p.ops) for p in ps)
+
+
 class _RBW:
     """must-assigned / may-read-before-assigned analysis over a class's fit path"""
 
